@@ -80,9 +80,9 @@ SPEC("pane.converters", "ScalarConverter.into_data",
 
 # ---------------------------------------------------------------------------------------------
 # pure string helpers used only to build `expected` texts: assumed total (strings are not interpreted here)
-SPEC("pane.util", "list_phrase", trusted=True, total=True, result_kind="str",
+SPEC("pane.util", "list_phrase", trusted=True, total=True, result_kind="str", result_opaque=True,
      note="assumed: total, pure, returns a str (string formatting helper)")
-SPEC("pane.util", "pluralize", trusted=True, total=True, result_kind="str",
+SPEC("pane.util", "pluralize", trusted=True, total=True, result_kind="str", result_opaque=True,
      note="assumed: total, pure, returns a str (string formatting helper)")
-SPEC("pane.util", "remove_article", trusted=True, total=True, result_kind="str",
+SPEC("pane.util", "remove_article", trusted=True, total=True, result_kind="str", result_opaque=True,
      note="assumed: total, pure, returns a str (string formatting helper)")
